@@ -15,8 +15,10 @@ Every decode of the real code runs
                       and valid alike, data <= 2 KB) is ALSO given to the driver's `x` command, which runs both hand models
                       of the decoder at the fuels of theorem `cost_agrees_with_code` - the cost model and the value model
                       `Code.unmarshal` of C01 / C02 - and the three verdicts (cost model, value model, real decoder) are
-                      compared: outcome, consumed bytes, number of top-level values.  Where the driver binary of C01 is
-                      present and not older than its sources, the same inputs go through `drv_c01 unmarshal` as well (the
+                      compared: outcome, consumed bytes, number of top-level values, number of objects in them, and the
+                      exception class (a difference of class is a disagreement unless the tree raises its own
+                      MarshallingError where the models say a built-in exception escapes: hardening).  Where the driver
+                      binary of C01 is present and not older than any source in its import closure, the same inputs go through `drv_c01 unmarshal` as well (the
                       value model as C01 itself runs it, fuel 300) and its verdict is compared with the one above.
   S4 property oracle  (implementation only) the decode returns or raises an ordinary Exception within
                       K*(len+1) counted invocations (K from the proved bound: longest signature in play + 2),
@@ -80,6 +82,9 @@ ASSUMPTIONS = [
     "'error-class-drift'): hardening the decoder (MarshallingError instead of struct.error, earlier rejection) is not a "
     'disagreement.  A hardening that REJECTS input the model decodes (array > 2^26, missing NUL) is: the model mirrors the '
     'code and has to follow such a change',
+    'stream cost-vs-code-vs-impl is stricter about the exception class than the older streams: both models are proved to '
+    'raise the same class (cost_agrees_with_code), and the stream demands that class of the implementation too, except for '
+    'the one allowed hardening (the tree\'s own MarshallingError, or a subclass, instead of a built-in exception)',
 ]
 RULE = ('valid (signature, value) pairs (13 basic codes incl. h, variants, arrays, dicts, structs; depth <= 3) and valid '
         'messages in both byte orders are generated from the repo\'s own marshaller, then: every truncation; per byte position '
